@@ -13,7 +13,7 @@ RULE = {"C19": "four helpers, each driven by random sample sequences under the p
                "(levels on both sides of the bypass level), SimpleWatchdog (reset/enable/setTimeout/isExpired/printIfExpired, "
                "timeouts n/1e6 for whole-microsecond n, landings exactly on the timeout).  Non-trivial = sequence with >=2 "
                "state changes / True results / passed low-level records / expiry flips; distinct = hash of the sequence."}
-REQUIRED = {"C19": {"toggle-edge-flip": 2000, "toggle-held-no-flip": 2000, "toggle-on-off-pair": 500, "toggle-real-joystick-case": 20, "toggle-two-objects-on-one-button": 100, "debouncer-two-objects-on-one-button": 50, "toggle-nonbool-levels": 50,
+REQUIRED = {"C19": {"toggle-edge-flip": 2000, "toggle-held-no-flip": 2000, "toggle-on-off-pair": 500, "toggle-real-joystick-case": 20, "toggle-two-objects-on-one-button": 100, "clock-starts-at-zero": 30, "debouncer-two-objects-on-one-button": 50, "toggle-nonbool-levels": 50,
                     "toggle-debounce-flip": 300, "toggle-debounce-suppressed-edge": 100,
                     "debouncer-true": 1000, "debouncer-suppressed-press": 1000, "debouncer-required-true": 300, "debouncer-exact-strict": 30,
                     "filter-bypass-pass": 1000, "filter-low-pass": 500, "filter-low-suppressed": 1000, "filter-through-real-logger": 50,
@@ -85,6 +85,7 @@ def run_toggle(acc, case):
     now_us, step = _clock()
     real = case.get("real", False)
     period = case.get("period_us")
+    _from_zero(case, acc)
     if case.get("grid"):
         r = now_us() % GRID
         if r:
@@ -197,6 +198,7 @@ def run_debouncer(acc, case):
     from robotpy_ext.control.button_debouncer import ButtonDebouncer
     now_us, step = _clock()
     grid = case.get("grid")
+    _from_zero(case, acc)
     if grid:
         r = now_us() % GRID
         if r:
@@ -447,6 +449,23 @@ def run_watchdog(acc, case):
 
 
 # ----------------------------------------------------------------------------- generation
+def _from_zero(case, acc):
+    """The case starts with the FPGA clock at exactly 0 (a program that has just started; simulation tests do this)."""
+    if case.get("from_zero"):
+        import hal.simulation as hs
+        hs.restartTiming()
+        hs.pauseTiming()
+        acc.ev("clock-starts-at-zero")
+
+
+def _maybe_zero(rng, c):
+    if rng.random() < 0.1 and not c.get("grid"):
+        c["from_zero"] = True
+        c["samples"][0][0] = 0
+        c["samples"][0][1] = True      # pressed in the very first sample, at t = 0
+    return c
+
+
 def _maybe_twin(rng, c):
     """Sometimes two Toggle objects watch the same button (e.g. two components each keep their own)."""
     if rng.random() < 0.3:
@@ -473,8 +492,8 @@ def gen_case(rng, kind):
         return c
     if kind == "toggle_db":
         p = GRID * rng.choice([1, 4, 16, 32, 64]) if grid else rng.choice([500000, 100000, 20000, 250000, rng.randrange(1, 1000000)])
-        return _maybe_twin(rng, {"kind": "toggle", "grid": grid, "period_us": p, "period_int": p % 1000000 == 0 and rng.random() < 0.5,
-                                 "samples": gen_samples(rng, rng.choice([40, 120, 300]), grid)})
+        return _maybe_zero(rng, _maybe_twin(rng, {"kind": "toggle", "grid": grid, "period_us": p, "period_int": p % 1000000 == 0 and rng.random() < 0.5,
+                                 "samples": gen_samples(rng, rng.choice([40, 120, 300]), grid)}))
     if kind == "debouncer":
         p = GRID * rng.choice([1, 4, 16, 32, 64]) if grid else rng.choice([500000, 100000, 20000, 1000000, rng.randrange(1, 1000000)])
         samples = gen_samples(rng, rng.choice([40, 120, 300]), grid)
@@ -482,8 +501,8 @@ def gen_case(rng, kind):
             s[1] = s[1] or rng.random() < 0.5        # mostly pressed: exercises the rate limit
             if rng.random() < 0.15:
                 s[0] = p if rng.random() < 0.6 else p + rng.choice([-1, 1]) if not grid else p   # land on the period
-        return _maybe_twin(rng, {"kind": "debouncer", "grid": grid, "period_us": p, "period_int": p % 1000000 == 0 and rng.random() < 0.5,
-                                 "via_setter": rng.random() < 0.3, "samples": samples})
+        return _maybe_zero(rng, _maybe_twin(rng, {"kind": "debouncer", "grid": grid, "period_us": p, "period_int": p % 1000000 == 0 and rng.random() < 0.5,
+                                                  "via_setter": rng.random() < 0.3, "samples": samples}))
     if kind == "filter":
         import logging
         period = rng.choice([0.5, 1.0, 3, 0.25, 2.0, 0.125])
